@@ -464,6 +464,14 @@ def s_owned(ex, e, st):
     return [(o, VBool(cond))]
 
 
+def s_depth(ex, e, st):
+    """depth(x): ghost depth of an object in its tree (roots 0); -1 for None"""
+    o, args, _ = _one(ex, e, st)
+    o = o.copy()
+    dep = ex.G(o, 'depth', '(Array Int Int)')
+    return [(o, VInt(Ite(Is('VRef', args[0]), Select(dep, ex.rv(args[0])), intlit(-1))))]
+
+
 def s_is_ref(ex, e, st):
     o, args, _ = _one(ex, e, st)
     return [(o, VBool(Is('VRef', args[0])))]
@@ -471,7 +479,7 @@ def s_is_ref(ex, e, st):
 
 bi.SPEC_BUILTINS.update({
     'item': s_item, 'llen': s_llen, 'old': s_old, 'field': s_field, 'canon_uuid': s_canon,
-    'uuid_ok': s_uuid_ok, 'is_ref': s_is_ref, 'anc': s_anc, 'owned': s_owned,
+    'uuid_ok': s_uuid_ok, 'is_ref': s_is_ref, 'anc': s_anc, 'owned': s_owned, 'depth': s_depth,
     'isSec': s_isclass('BaseSection'), 'isProp': s_isclass('BaseProperty'),
     'isDoc': s_isclass('BaseDocument'), 'isSL': s_isclass('SmartList'), 'isVErr': s_isclass('ValidationError'),
 })
